@@ -233,6 +233,9 @@ func parseDirectives(doc *ast.CommentGroup, tier string) *Config {
 		case "numtokens":
 			cfg.NumTokens = true
 			cfg.Stubs = append(cfg.Stubs, "decimal formatting/parsing of symbolic integers (fmt %d / strconv.ParseUint) -> inverse pair on an opaque number token (the digit codec is trusted)")
+		case "lazytimers":
+			cfg.LazyTimers = true
+			cfg.Bounds["timers"] = "fire only while the selecting thread would block (reduction: equivalent to the producer pausing)"
 		case "ticks":
 			cfg.MaxTicks, _ = strconv.Atoi(val)
 			cfg.Bounds["ticker firings"] = val
